@@ -330,6 +330,26 @@ fn write_checks(acc: &mut crate::report::Acc) {
                 let mut b = BytesMut::from(&f[..]);
                 let Ok(Some(p)) = codec.decode(&mut b) else { continue };
                 let Ok(want) = codec.encode(&p) else { continue };
+                one_write(acc, imp, compressed, &k.name, p, want.to_vec());
+            }
+            // the largest frames of every counted kind (up to 1016 bytes in compressed mode)
+            let codec = Codec::new(mode_of(compressed));
+            for c in crate::typed::counted() {
+                for n in [c.max, (1016 - c.header) / c.elem, (252 - c.header) / c.elem] {
+                    let Some(p) = (c.make)(n) else { continue };
+                    let Ok(Ok(want)) = guard(|| codec.encode(&p)) else { continue };
+                    one_write(acc, imp, compressed, &format!("{} x{n}", c.kind), p, want.to_vec());
+                }
+            }
+        }
+    }
+}
+
+fn one_write(acc: &mut crate::report::Acc, imp: Impl, compressed: bool, name: &str, p: Packet, want: Vec<u8>) {
+    {
+        {
+            {
+                let k = NameOnly { name: name.to_string() };
                 acc.eval();
                 let r = guard(|| write_one(imp, compressed, p.clone()));
                 let replay = json!({"site": "writes", "kind": k.name, "implementation": format!("{imp:?}"), "compressed": compressed});
@@ -343,6 +363,8 @@ fn write_checks(acc: &mut crate::report::Acc) {
         }
     }
 }
+
+struct NameOnly { name: String }
 
 fn write_one(imp: Impl, compressed: bool, p: Packet) -> Result<Vec<Vec<u8>>, String> {
     let peer = std::net::UdpSocket::bind("127.0.0.1:0").map_err(|e| e.to_string())?;
